@@ -52,6 +52,15 @@ CHECKS.update({
          "encoding/xml, gzip trusted; channel-operation granularity; a partial entry after the complete ones is tolerated.", "§5 C20"),
 })
 
+CHECKS.update({
+ "C07": ("exhaustive enumeration of every answer of the random source (environment-answer exploration of the real Optimize) over enumerated tables and proteins",
+         "math/rand is replaced at build time (overlay) in transform/codon, random and weightedrand by a source whose every draw is an explorer choice point; Optimize is then executed under EVERY answer of every draw for all 25 default tables x every letter, for tables re-weighted with every count vector over {0,1,2,3,9,10,20} on amino acids with 2,3,4 (6 thorough) synonyms, for all proteins up to length 2 (3) and for every output random.ProteinSequence can produce at small lengths. Round trip, three bases per residue and the >10% threshold are checked on every execution; proportionality is an exact count (#answers yielding a codon == its weight), unencodable residues must give an error, never a panic.",
+         "Uniformity of math/rand.Intn trusted; proteins longer than 3 residues under full answer enumeration not covered.", "§5 C07"),
+ "C08": ("explicit-state breadth-first search over operation histories of the real package with canonical state hashing, plus preemption-bounded schedule exploration at statement granularity, plus exhaustive input enumeration for counting",
+         "(1) OptimizeTable on private copies for every ACGT string up to length 6 (8), all case masks and non-ACGT letters, compared with an independent in-frame counter. (2) Breadth-first search over histories of get/reweight/add/compromise/json on the real package (globals reset by generated code and the history replayed for every state), states deduplicated by a canonical key of values, aliasing classes and model knowledge; after EVERY step the returned table, every other live table and a fresh default of each id are compared with a value-semantics model; depth 4 (6). (3) Two and three tasks re-weighting tables of different ids with a scheduling point before every statement of the codon package, all schedules up to 2 (3) preemptions.",
+         "Receiver mutation by OptimizeTable is documented and not judged; sequentially consistent statement-level interleaving; one open known finding (GetCodonTable shares storage), see known_findings.json.", "§5 C08"),
+})
+
 NOT_YET = {}
 
 props = [json.loads(l) for l in open('/verif/properties.jsonl')]
